@@ -1,14 +1,30 @@
 --------------------------- MODULE MC_GaugeBlocks ---------------------------
-(* every sorted integer energy array, random-gauge threshold thg and calculator threshold thc inside the constants *)
+(* every sorted integer energy array, random-gauge threshold thg and calculator threshold thc inside the constants.
+   The integer th stands for the threshold th + 1/2 (see Periodicity).
+   TETRA = TRUE: in addition the band blocks a tetrahedron calculator traces (Fermi sea) for every spread of the corner
+   energies and every pair of Fermi levels: variable tet = [lo, hi, ef0, ef1, traced] (<<>> otherwise). *)
 EXTENDS Periodicity
 CONSTANTS NB, EMAX, THS,
-          RequirePrecond   \* TRUE: only thg <= thc (GaugeWithinTrace); FALSE: all pairs (sensitivity: must violate)
-VARIABLES E, thg, thc, rg
-vars == <<E, thg, thc, rg>>
+          RequirePrecond,  \* TRUE: only thg <= thc (GaugeWithinTrace); FALSE: all pairs (sensitivity: must violate)
+          TETRA,           \* TRUE: the tetrahedron inputs
+          Clip             \* TRUE: the code; FALSE: the fully occupied block is not clipped to the first group in range (must violate)
+VARIABLES E, thg, thc, rg, tet
+vars == <<E, thg, thc, rg, tet>>
 SortedArrays == UNION { {s \in [1..n -> 0..EMAX] : \A k \in 1..(n - 1) : s[k] <= s[k + 1]} : n \in 1..NB }
+Dbl(s) == [n \in 1..Len(s) |-> 2 * s[n]]
+(* half units: centre 2 E, corner maximum 2 E + 2 d (d in 0..1), corner minimum = centre or 2 E - 2, Fermi levels odd *)
+Levels == {2 * j - 1 : j \in 0..(EMAX + 2)}
+TetOf(e, d, lo, f0, f1, th) ==
+   LET hi == [n \in 1..Len(e) |-> 2 * e[n] + 2 * d[n]]
+       lw == [n \in 1..Len(e) |-> 2 * e[n] - (IF lo THEN 2 ELSE 0)]
+   IN [lo |-> lw, hi |-> hi, ef0 |-> f0, ef1 |-> f1, traced |-> TetraTraced(Dbl(e), lw, hi, 2 * th + 1, f0, f1, Clip)]
 Init == /\ E \in SortedArrays /\ thg \in THS /\ thc \in THS
         /\ (RequirePrecond => GaugeWithinTrace(thg, thc))
         /\ rg = DegenRG(E, thg)
+        /\ IF TETRA
+           THEN \E d \in [1..Len(E) -> 0..1] : \E lo \in BOOLEAN : \E f0 \in Levels : \E f1 \in {f0, 2 * EMAX + 3} :
+                   tet = TetOf(E, d, lo, f0, f1, thc)
+           ELSE tet = <<>>
 Next == UNCHANGED vars
 Spec == Init /\ [][Next]_vars
 (* C04, gauge part *)
@@ -16,5 +32,7 @@ Multiplets == IsMultipletList(E, rg, thg)
 TraceBlocksContain == InsideTraceBlocks(E, thg, thc)
 SeaWhole == \A emin \in (-1)..(EMAX + 1) : \A emax \in emin..(EMAX + 1) : SeaNeverCuts(E, thg, thc, emin, emax)
 MixSymmetric == \A p \in MayMix(E, thg) : <<p[2], p[1]>> \in MayMix(E, thg) /\ <<p[1], p[1]>> \in MayMix(E, thg)
+(* the blocks a tetrahedron calculator traces never cut a block the random gauge may rotate *)
+TracedBlocksAreUnionsOfMultiplets == (TETRA /\ GaugeWithinTrace(thg, thc)) => UnionsOfMultiplets(tet.traced, rg)
 NoMixing == rg = <<>>      \* must be VIOLATED (non-vacuity)
 =============================================================================
